@@ -111,8 +111,13 @@ class Run:
     pass
 
 
+def vterm_identity(ident):
+    """Identity of the terminal *model* for a world identity (every kitty version is the kitty model)."""
+    return "kitty" if ident.startswith("kitty") else ident
+
+
 def make_term(cols, rows, ident, row0):
-    t = vterm.VTerm(cols, rows, ident, onlcr=True, line_start=0)
+    t = vterm.VTerm(cols, rows, vterm_identity(ident), onlcr=True, line_start=0)
     t.r, t.c = row0, 0
     return t
 
@@ -350,7 +355,7 @@ def ref_screen(case, k, exp, cols):
     t = _ref_term_cache.get(key)
     if t is None:
         inner = inner_frame(case, k)
-        t = vterm.run(inner, cols, exp.H + 1, case.get("ident", "other"), at=(exp.top, exp.left))
+        t = vterm.run(inner, cols, exp.H + 1, vterm_identity(case.get("ident", "other")), at=(exp.top, exp.left))
         if len(_ref_term_cache) > 20000:
             _ref_term_cache.clear()
         _ref_term_cache[key] = t
